@@ -16,7 +16,7 @@ Require Import String.
 Require Import Arith Lia List Bool ZArith QArith Qcanon Permutation.
 From TK Require Import Mat_Sums Mat_Core Mat_Qc Mat_EigSelect EigSelect Mat_EigSelect_Tie
                        Lle_Model Lle_Spec Lle_Proof_Triplets Lle_Proof_Lle Lle_Proof_Ltsa
-                       Lle_Proof_Hlle Lle_Proof_Embed Lle_Proof_Gs Lle_Proof_GsQc Lle_Proof_KyFan Lle_Proof_Flat Lle_Proof_Run Lle_Loop HlleLoop Lle_Proof_Loop.
+                       Lle_Proof_Hlle Lle_Proof_Embed Lle_Proof_Gs Lle_Proof_GsQc Lle_Proof_KyFan Lle_Proof_Flat Lle_Proof_Run Lle_Loop HlleLoop Lle_Proof_Loop Lle_Proof_Psd.
 Import ListNotations.
 Local Open Scope nat_scope.
 
@@ -175,6 +175,30 @@ Theorem C08_ltsa_const_vector :
 Proof. exact @ltsa_const_vector. Qed.
 Print Assumptions C08_ltsa_const_vector.
 
+(* the KLTSA cost of one vector is a sum of squares plus shift |y|^2 whenever the local matrices I - P_i are
+   symmetric idempotent, which they are for G_i with orthonormal columns (k rsk^2 = 1, V^T V = I, V^T 1 = 0) *)
+Theorem C08_ltsa_quadratic_form :
+  forall (F : Type) (Fo : FieldOps F) (Ff : IsField F) (N k : nat) (nbr : nat -> nat -> nat)
+         (P : nat -> mat F) (shift : F) (y : vec F),
+    (forall i a, i < N -> a < k -> nbr i a < N) ->
+    (forall i, i < N -> msym k (msub mI (P i)) /\
+                        meq k k (mmul k (msub mI (P i)) (msub mI (P i))) (msub mI (P i))) ->
+    dot N y (mv N (ltsa_M_spec N k nbr P shift) y) =
+    (sumn N (fun i => sumn k (fun t => (mv k (msub mI (P i)) (pull (nbr i) y) t
+                                       * mv k (msub mI (P i)) (pull (nbr i) y) t)%F))
+     + shift * dot N y y)%F.
+Proof. exact @ltsa_quadratic_form. Qed.
+Print Assumptions C08_ltsa_quadratic_form.
+
+Theorem C08_gram_projector_idem :
+  forall (F : Type) (Fo : FieldOps F) (Ff : IsField F) (k m : nat) (G : mat F),
+    meq m m (mmul k (mtrans G) G) mI ->
+    msym k (msub mI (mmul m G (mtrans G))) /\
+    meq k k (mmul k (msub mI (mmul m G (mtrans G))) (msub mI (mmul m G (mtrans G))))
+            (msub mI (mmul m G (mtrans G))).
+Proof. exact @gram_projector_idem. Qed.
+Print Assumptions C08_gram_projector_idem.
+
 (* ---------------------------------------------------------------------- *)
 (* 3. HLLE                                                                 *)
 (* ---------------------------------------------------------------------- *)
@@ -295,6 +319,17 @@ Theorem C08_hlle_loop_table :
    exists w, In w (loop_writes hlle_loop_src 3) /\ (loop_ncols hlle_loop_src 3 <= w5_col w)%Z).
 Proof. exact hlle_loop_table. Qed.
 Print Assumptions C08_hlle_loop_table.
+
+(* the HLLE cost of one vector: sum over neighbourhoods and Gram-Schmidt columns of (u . S_i^T y)^2 / (u.u) *)
+Theorem C08_hlle_quadratic_form :
+  forall (F : Type) (Fo : FieldOps F) (Ff : IsField F) (N k : nat) (nbr : nat -> nat -> nat)
+         (U : nat -> list (vec F * F)) (y : vec F),
+    (forall i a, i < N -> a < k -> nbr i a < N) ->
+    dot N y (mv N (hlle_M_spec N k nbr (fun i => outer_sum_sf (U i))) y) =
+    sumn N (fun i => fold_right (fun un acc => (dot k (fst un) (pull (nbr i) y) * dot k (fst un) (pull (nbr i) y)
+                                                / snd un + acc)%F) 0%F (U i)).
+Proof. exact @hlle_quadratic_form. Qed.
+Print Assumptions C08_hlle_quadratic_form.
 
 (* the HLLE routine as a whole (sqrt-free executable form): Ok T -> T assembles the property's matrix *)
 Theorem C08_hlle_model_correct :
